@@ -9,16 +9,18 @@ package lb
 //@   prop C06
 //@   requires rrb != nil && rrb.index != nil
 //@   modifies atomu64
-//@   ensures @empty-list len(hosts) == 0 ==> result == nil
-//@   ensures @counter-mod-len len(hosts) > 0 ==> result == hosts[int(atomu64[rrb.index] % uint64(len(hosts)))] && atomu64[rrb.index] == old(atomu64[rrb.index]) + 1
+//@   ensures @empty-list len(hosts) == 0 ==> result == nil && atomu64[rrb.index] == old(atomu64[rrb.index])
+//@   ensures @next-counter-value-mod-len len(hosts) > 0 ==> atomu64[rrb.index] == uint64(old(atomu64[rrb.index]) + 1) && result == hosts[int(atomu64[rrb.index] % uint64(len(hosts)))]
 
 //@ func (*randomBalancer).PickHost
 //@   prop C06
+//@   modifies rndprev, rndlast
 //@   ensures @empty-list len(hosts) == 0 ==> result == nil
-//@   ensures @member len(hosts) > 0 ==> exists k int :: 0 <= k && k < len(hosts) && result == hosts[k]
+//@   ensures @member len(hosts) > 0 ==> result == hosts[rndlast % len(hosts)]
 
 //@ func (*leastConnBalancer).PickHost
 //@   prop C06
 //@   requires forall k int :: 0 <= k && k < len(hosts) ==> hosts[k] != nil && hosts[k].Stats != nil
+//@   modifies rndprev, rndlast
 //@   ensures @empty-list len(hosts) == 0 ==> result == nil
-//@   ensures @member-never-the-strictly-busier-sample len(hosts) > 0 ==> exists j int, k int :: 0 <= j && j < len(hosts) && 0 <= k && k < len(hosts) && (result == hosts[j] || result == hosts[k]) && lcsample1 == hosts[j] && lcsample2 == hosts[k] && (result == lcsample1 ==> lccount1 < lccount2) && (result == lcsample2 ==> lccount2 <= lccount1)
+//@   ensures @never-the-strictly-busier-of-the-two-samples len(hosts) > 0 ==> result == ite(atomu64[hosts[rndprev % len(hosts)].Stats.connActive] < atomu64[hosts[rndlast % len(hosts)].Stats.connActive], hosts[rndprev % len(hosts)], hosts[rndlast % len(hosts)])
